@@ -270,17 +270,39 @@ def timers_case(r):
     lose_back = r.choice([0, 0, 1, 2])
     fwd = 0
     blackout_from = r.choice([None, None, r.randrange(5, 40)])
-    for t in range(r.choice([20, 40, 80])):
-        now = g.tick((1, 50, 100, 500, 1000, 2000, 2100, 3000))
+    # variant: the server application disconnects soon after the handshake (whose ACK may have been lost a few
+    # times) and the peer never answers: disconnect requests 2 s apart, Error(Timeout) after the budget only
+    srv_disc = r.random() < 0.4
+    lose_ack = 0
+    disc_from = None
+    if srv_disc:
+        lose_first, lose_back, blackout_from = 0, 0, None
+        lose_ack = r.choice([0, 1, 2, 3, 5])
+        disc_from = lose_ack + r.choice([1, 1, 2, 3])
+    n_iter = r.choice([20, 40, 80])
+    t = 0
+    end_ms = None
+    while t < n_iter or (end_ms is not None and g.now < end_ms and t < 400):
+        if srv_disc:
+            now = g.tick((50, 100, 500, 1000, 2000, 2100) if t <= disc_from else (100, 500, 1000, 2000, 2100, 3000))
+        else:
+            now = g.tick((1, 50, 100, 500, 1000, 2000, 2100, 3000))
         if r.random() < 0.2:
             g.ops.append("clisend 0 %d %d %d %d" % (r.randrange(4), r.randrange(4), min(cinfo["mps"], r.choice([10, 100, 2000])), g.k)); g.k += 1
         g.ops.append("clistep 0 %d" % now)
-        dark = blackout_from is not None and t >= blackout_from
-        d = 1000 if (fwd < lose_first or dark) else 0
+        dark = (blackout_from is not None and t >= blackout_from) or (disc_from is not None and t >= disc_from)
+        d = 1000 if (fwd < lose_first or dark or (1 <= t <= lose_ack)) else 0
         g.ops.append("pfwd 0 %d 0 1" % d)
         fwd += 1
         g.nonce()
         g.ops.append("srvstep %d" % now)
+        if disc_from is not None and t >= disc_from:
+            if end_ms is None:
+                end_ms = now + 30000
+                mode = r.randrange(2)
+            if t < disc_from + 3:
+                g.ops.append("srvdisc 0 %d" % mode)
         d2 = 1000 if (fwd <= lose_back or dark) else 0
         g.ops.append("pfwd 0 %d 0 1" % d2)
+        t += 1
     return g.ops
